@@ -276,6 +276,8 @@ def run_shard(shard, rec):
             check_valid(case, rec)
             for op in base["ops"]:
                 rec.count("operation", op["operation"])
+                if op["parameters"].get("integer_sources"):
+                    rec.count("optional-parameter", "remap_columns:integer_sources")
             if rng.random() < 0.02:
                 rec.sample(dict(ops=base["ops"], table=base["tables"][0]))
         else:
@@ -294,6 +296,9 @@ def finalize(merged, tier, inconclusive):
     for op in remodel.MODELS:
         if seen.get(op, 0) < 10:
             inconclusive.append(f"operation '{op}' was exercised {seen.get(op, 0)} times (< 10)")
+    got = merged.hist.get("optional-parameter", {}).get("remap_columns:integer_sources", 0)
+    if got < 8:
+        inconclusive.append(f"remap_columns with integer_sources was exercised {got} times (< 8)")
     kinds = merged.hist.get("invalid-kind", {})
     if len(kinds) < 8:
         inconclusive.append(f"only {len(kinds)} kinds of invalid operation lists were exercised")
